@@ -49,7 +49,7 @@ open C14
 /-- line-protocol handler for property C14 (arguments after the leading `c14` token)
 
 * `sys host port user pw timeoutNs strict key pass cfg kh netconf extra override keyLoads`
-  → `dom=<0|1> <ok bin argv | err e> | <meaning of the model argv>`
+  → `dom=<0|1> [pwdom=… pwfree=…] <ok bin argv | err e> | <meaning of the model argv>`
 * `parse argv` → meaning of an argv under `sshParse`
 * `std host port user pw timeoutNs strict key kh khLoads keyLoads verdict accKey accPw accKbd`
   → `<ok addr user policy auth | err e> <outcome> <credentials offered, in order>`
@@ -72,7 +72,10 @@ def handleC14 : List String → String
       let dom := hostOk host && ovr.isEmpty
       match systemOpen a t (s2b keyLoads) with
       | .error e => s!"dom={b2s dom} err {showErr e}"
-      | .ok (bin, argv) => s!"dom={b2s dom} ok {toHex bin} {showHexList argv} | {showEff (sshParse argv)}"
+      | .ok (bin, argv) =>
+        let pwdom := pw.any fun m => markerB m a t
+        let pwfree := argv.all fun e => !isInfix pw e
+        s!"dom={b2s dom} pwdom={b2s pwdom} pwfree={b2s pwfree} ok {toHex bin} {showHexList argv} | {showEff (sshParse argv)}"
     | _, _, _, _, _, _, _, _, _, _, _ => "bad-op"
   | ["std", host, port, user, pw, tmo, strict, key, kh, khLoads, keyLoads, v, accKey, accPw, accKbd] =>
     match fromHex host, port.toInt?, fromHex user, fromHex pw, tmo.toInt?, fromHex key, fromHex kh, verdict v with
